@@ -94,7 +94,7 @@ def add_borrowers(scn, rng):
             elif r < 0.5:
                 table[m] = 'error'
         scn['borrowers'].append({'genTexts': rng.random() < 0.5, 'kind': rng.choice(['any', 'py']),
-                                 'table': table})
+                                 'table': table, 'alias': 'lower' if rng.random() < 0.25 else None})
 
 
 def build_random(rng, tier):
